@@ -297,7 +297,7 @@ theorem sum_filter_le (p : Nat → Bool) (F : Nat → K) (hF : ∀ i, 0 ≤ F i)
   exact hF i
 
 /-- exact synthesis is bounded: `|iw g [x]| ≤ C·G` -/
-theorem abs_iwaveletRow_le (cs : List K) (N : Nat) (g : Nat → K) (G : K) (hG : 0 ≤ G) (hg : ∀ p, |g p| ≤ G) (x : Nat) :
+theorem abs_iwaveletRow_le (cs : List K) (N : Nat) (g : Nat → K) (G : K) (hG : 0 ≤ G) (hg : ∀ p, p < N → |g p| ≤ G) (x : Nat) :
     |iwaveletRow cs N g x| ≤ absSum cs * G := by
   unfold iwaveletRow
   simp only
@@ -308,11 +308,11 @@ theorem abs_iwaveletRow_le (cs : List K) (N : Nat) (g : Nat → K) (G : K) (hG :
   have hl := abs_listsum_le ((List.range cs.length).filter fun ci => decide ((((x + ci : Nat) : Int) - (cs.length : Int) + 2) % 2 ≠ 0))
     (fun ci => cs.getD ci 0)
     (fun ci => access (N / 2) g ((((x + ci : Nat) : Int) - (cs.length : Int) + 2).tdiv 2)) G
-    (fun ci => abs_access_le _ _ G hG (fun p _ => hg p) _)
+    (fun ci => abs_access_le _ _ G hG (fun p hp => hg p (by omega)) _)
   have hh := abs_listsum_le ((List.range cs.length).filter fun ci => decide ((((x + ci : Nat) : Int) - (cs.length : Int) + 2) % 2 ≠ 0))
     (fun ci => if ci % 2 = 0 then cs.getD (cs.length - ci - 1) 0 else -(cs.getD (cs.length - ci - 1) 0))
     (fun ci => access (N / 2) (fun k => g (N / 2 + k)) ((((x + ci : Nat) : Int) - (cs.length : Int) + 2).tdiv 2)) G
-    (fun ci => abs_access_le _ _ G hG (fun p _ => hg _) _)
+    (fun ci => abs_access_le _ _ G hG (fun p hp => hg _ (by omega)) _)
   simp only [abs_ite_neg'] at hh
   have s1 := sum_filter_le (fun ci => decide ((((x + ci : Nat) : Int) - (cs.length : Int) + 2) % 2 ≠ 0))
     (fun ci => |cs.getD ci 0|) (fun _ => abs_nonneg _) cs.length
@@ -326,7 +326,7 @@ theorem abs_iwaveletRow_le (cs : List K) (N : Nat) (g : Nat → K) (G : K) (hG :
 
 /-- **synthesis in rounded arithmetic**: `|ĩw g [x] − iw g [x]| ≤ ((1+u)^(2n+2) − 1)·C·G` -/
 theorem iwavelet_round {u : K} (hu : 0 ≤ u) (hfl : ∀ x, |fl x - x| ≤ u * |x|) (cs : List K) (N : Nat) (g : Nat → K)
-    (G : K) (hG : 0 ≤ G) (hg : ∀ p, |g p| ≤ G) (x : Nat) :
+    (G : K) (hG : 0 ≤ G) (hg : ∀ p, p < N → |g p| ≤ G) (x : Nat) :
     |(iwaveletRow (cs.map (ex (fl := fl))) N (fun q => ex (g q)) x).v - iwaveletRow cs N g x|
       ≤ gam u (cs.length + 1) * (absSum cs * G) := by
   have hC := absSum_nonneg cs
@@ -367,7 +367,7 @@ theorem iwavelet_round {u : K} (hu : 0 ≤ u) (hfl : ∀ x, |fl x - x| ≤ u * |
   -- low branch
   have bl := sum_abs_mul_le taps (fun ci => cs.getD ci 0)
     (fun ci => access (N / 2) g ((((x + ci : Nat) : Int) - (cs.length : Int) + 2).tdiv 2)) G
-    (fun ci => abs_access_le _ _ G hG (fun p _ => hg p) _)
+    (fun ci => abs_access_le _ _ G hG (fun p hp => hg p (by omega)) _)
   have bl' : (taps.map fun ci => |cs.getD ci 0 *
       access (N / 2) g ((((x + ci : Nat) : Int) - (cs.length : Int) + 2).tdiv 2)|).sum ≤ absSum cs * G :=
     le_trans bl (mul_le_mul_of_nonneg_right s1' hG)
@@ -377,13 +377,13 @@ theorem iwavelet_round {u : K} (hu : 0 ≤ u) (hfl : ∀ x, |fl x - x| ≤ u * |
       intro v hv; simp only [List.mem_map] at hv; obtain ⟨j, _, rfl⟩ := hv; exact abs_nonneg _)) hgn)
   have al := abs_listsum_le taps (fun ci => cs.getD ci 0)
     (fun ci => access (N / 2) g ((((x + ci : Nat) : Int) - (cs.length : Int) + 2).tdiv 2)) G
-    (fun ci => abs_access_le _ _ G hG (fun p _ => hg p) _)
+    (fun ci => abs_access_le _ _ G hG (fun p hp => hg p (by omega)) _)
   have al' := le_trans al (mul_le_mul_of_nonneg_right s1' hG)
   -- high branch
   have bh := sum_abs_mul_le taps
     (fun ci => if ci % 2 = 0 then cs.getD (cs.length - ci - 1) 0 else -(cs.getD (cs.length - ci - 1) 0))
     (fun ci => access (N / 2) (fun k => g (N / 2 + k)) ((((x + ci : Nat) : Int) - (cs.length : Int) + 2).tdiv 2)) G
-    (fun ci => abs_access_le _ _ G hG (fun p _ => hg _) _)
+    (fun ci => abs_access_le _ _ G hG (fun p hp => hg _ (by omega)) _)
   simp only [abs_ite_neg'] at bh
   have bh' := le_trans bh (mul_le_mul_of_nonneg_right s2' hG)
   have rh := rfold_err0 (fl := fl) hu hfl
@@ -394,7 +394,7 @@ theorem iwavelet_round {u : K} (hu : 0 ≤ u) (hfl : ∀ x, |fl x - x| ≤ u * |
   have ah := abs_listsum_le taps
     (fun ci => if ci % 2 = 0 then cs.getD (cs.length - ci - 1) 0 else -(cs.getD (cs.length - ci - 1) 0))
     (fun ci => access (N / 2) (fun k => g (N / 2 + k)) ((((x + ci : Nat) : Int) - (cs.length : Int) + 2).tdiv 2)) G
-    (fun ci => abs_access_le _ _ G hG (fun p _ => hg _) _)
+    (fun ci => abs_access_le _ _ G hG (fun p hp => hg _ (by omega)) _)
   simp only [abs_ite_neg'] at ah
   have ah' := le_trans ah (mul_le_mul_of_nonneg_right s2' hG)
   rw [← gam_succ]
@@ -449,7 +449,7 @@ theorem round_trip_round {u : K} (hu : 0 ≤ u) (hfl : ∀ x, |fl x - x| ≤ u *
     have := hd k; have := hwb k
     linarith
   have hGpos : 0 ≤ (1 + gam u cs.length) * (absSum cs * M) := by positivity
-  have hA := iwavelet_round hu hfl cs N wt _ hGpos hG x
+  have hA := iwavelet_round hu hfl cs N wt _ hGpos (fun p _ => hG p) x
   -- exact synthesis of the perturbation
   have hlin : iwaveletRow cs N wt x - iwaveletRow cs N (waveletRow cs N f) x =
       iwaveletRow cs N (fun k => wt k - waveletRow cs N f k) x := by
@@ -461,7 +461,7 @@ theorem round_trip_round {u : K} (hu : 0 ≤ u) (hfl : ∀ x, |fl x - x| ≤ u *
   have hB : |iwaveletRow cs N wt x - iwaveletRow cs N (waveletRow cs N f) x|
       ≤ absSum cs * (gam u cs.length * (absSum cs * M)) := by
     rw [hlin]
-    exact abs_iwaveletRow_le cs N _ _ (by positivity) hd x
+    exact abs_iwaveletRow_le cs N _ _ (by positivity) (fun p _ => hd p) x
   have hid := rowIdentity_general (two_ne_zero) cs heven hpos N hN f x hx hxN
   have hCc : |iwaveletRow cs N (waveletRow cs N f) x - f x| ≤ errConst cs * M := by
     rw [hid, add_sub_cancel_left]
@@ -481,6 +481,136 @@ theorem round_trip_round {u : K} (hu : 0 ≤ u) (hfl : ∀ x, |fl x - x| ≤ u *
       (errConst cs + absSum cs ^ 2 * gam u (2 * cs.length + 1)) * M := by
     rw [← gam_compose]; ring
   linarith
+
+/-! ### composing passes -/
+
+/-- an analysis pass applied to an already perturbed row -/
+theorem pass_analysis {u : K} (hu : 0 ≤ u) (hfl : ∀ x, |fl x - x| ≤ u * |x|) (cs : List K) (N : Nat)
+    (gt g : Nat → K) (B rho : K) (hB : 0 ≤ B) (hrho : 1 ≤ rho)
+    (hd : ∀ p, p < N → |gt p - g p| ≤ (rho - 1) * B) (hg : ∀ p, p < N → |g p| ≤ B) (k : Nat) :
+    |(waveletRow (cs.map (ex (fl := fl))) N (fun q => ex (gt q)) k).v - waveletRow cs N g k|
+        ≤ ((1 + gam u cs.length) * rho - 1) * (absSum cs * B) ∧
+      |waveletRow cs N g k| ≤ absSum cs * B := by
+  have hC := absSum_nonneg cs
+  have hgn := gam_nonneg hu cs.length
+  have hgt : ∀ p, p < N → |gt p| ≤ rho * B := by
+    intro p hp
+    have e : gt p = (gt p - g p) + g p := by ring
+    rw [e]
+    refine le_trans (abs_add_le _ _) ?_
+    have := hd p hp; have := hg p hp
+    linarith
+  have h1 := wavelet_round hu hfl cs N gt (rho * B) (by positivity) hgt k
+  have hlin : waveletRow cs N gt k - waveletRow cs N g k = waveletRow cs N (fun i => gt i - g i) k := by
+    have := waveletRow_linear cs N 1 (-1) gt g k
+    have e : (fun i => 1 * gt i + -1 * g i) = fun i => gt i - g i := by funext i; ring
+    rw [e] at this
+    rw [this]; ring
+  have h2 : |waveletRow cs N gt k - waveletRow cs N g k| ≤ absSum cs * ((rho - 1) * B) := by
+    rw [hlin]
+    exact abs_waveletRow_le cs N _ _ (by nlinarith) hd k
+  refine ⟨?_, abs_waveletRow_le cs N g B hB hg k⟩
+  have e : (waveletRow (cs.map (ex (fl := fl))) N (fun q => ex (gt q)) k).v - waveletRow cs N g k =
+      ((waveletRow (cs.map (ex (fl := fl))) N (fun q => ex (gt q)) k).v - waveletRow cs N gt k) +
+      (waveletRow cs N gt k - waveletRow cs N g k) := by ring
+  rw [e]
+  refine le_trans (abs_add_le _ _) ?_
+  have : gam u cs.length * (absSum cs * (rho * B)) + absSum cs * ((rho - 1) * B) =
+      ((1 + gam u cs.length) * rho - 1) * (absSum cs * B) := by ring
+  linarith
+
+/-- a synthesis pass applied to an already perturbed row -/
+theorem pass_synthesis {u : K} (hu : 0 ≤ u) (hfl : ∀ x, |fl x - x| ≤ u * |x|) (cs : List K) (N : Nat)
+    (gt g : Nat → K) (B rho : K) (hB : 0 ≤ B) (hrho : 1 ≤ rho)
+    (hd : ∀ p, p < N → |gt p - g p| ≤ (rho - 1) * B) (hg : ∀ p, p < N → |g p| ≤ B) (x : Nat) :
+    |(iwaveletRow (cs.map (ex (fl := fl))) N (fun q => ex (gt q)) x).v - iwaveletRow cs N g x|
+        ≤ ((1 + gam u (cs.length + 1)) * rho - 1) * (absSum cs * B) ∧
+      |iwaveletRow cs N g x| ≤ absSum cs * B := by
+  have hC := absSum_nonneg cs
+  have hgn := gam_nonneg hu (cs.length + 1)
+  have hgt : ∀ p, p < N → |gt p| ≤ rho * B := by
+    intro p hp
+    have e : gt p = (gt p - g p) + g p := by ring
+    rw [e]
+    refine le_trans (abs_add_le _ _) ?_
+    have := hd p hp; have := hg p hp
+    linarith
+  have h1 := iwavelet_round hu hfl cs N gt (rho * B) (by positivity) hgt x
+  have hlin : iwaveletRow cs N gt x - iwaveletRow cs N g x = iwaveletRow cs N (fun i => gt i - g i) x := by
+    have := iwaveletRow_linear cs N 1 (-1) gt g x
+    have e : (fun i => 1 * gt i + -1 * g i) = fun i => gt i - g i := by funext i; ring
+    rw [e] at this
+    rw [this]; ring
+  have h2 : |iwaveletRow cs N gt x - iwaveletRow cs N g x| ≤ absSum cs * ((rho - 1) * B) := by
+    rw [hlin]
+    exact abs_iwaveletRow_le cs N _ _ (by nlinarith) hd x
+  refine ⟨?_, abs_iwaveletRow_le cs N g B hB hg x⟩
+  have e : (iwaveletRow (cs.map (ex (fl := fl))) N (fun q => ex (gt q)) x).v - iwaveletRow cs N g x =
+      ((iwaveletRow (cs.map (ex (fl := fl))) N (fun q => ex (gt q)) x).v - iwaveletRow cs N gt x) +
+      (iwaveletRow cs N gt x - iwaveletRow cs N g x) := by ring
+  rw [e]
+  refine le_trans (abs_add_le _ _) ?_
+  have : gam u (cs.length + 1) * (absSum cs * (rho * B)) + absSum cs * ((rho - 1) * B) =
+      ((1 + gam u (cs.length + 1)) * rho - 1) * (absSum cs * B) := by ring
+  linarith
+
+theorem gam_four (u : K) (n : Nat) :
+    (1 + gam u (n + 1)) * ((1 + gam u (n + 1)) * ((1 + gam u n) * ((1 + gam u n) * 1))) - 1 = gam u (4 * n + 2) := by
+  unfold gam
+  ring
+
+/-- **forward error of the whole 2-D pipeline** `idaubechies(daubechies(f))` (rows, columns, columns, rows), every
+    operation of the four passes rounded, against the same pipeline in exact arithmetic: at **every** pixel -/
+theorem forward_2d {u : K} (hu : 0 ≤ u) (hfl : ∀ x, |fl x - x| ≤ u * |x|) (cs : List K) (N0 N1 : Nat) (f : Im K)
+    (M : K) (hM : 0 ≤ M) (hf : ∀ y x, y < N0 → x < N1 → |f y x| ≤ M) (y x : Nat) :
+    |(idaubechies2 (cs.map (ex (fl := fl))) N0 N1
+        (daubechies2 (cs.map (ex (fl := fl))) N0 N1 (fun y x => ex (f y x))) y x).v
+      - idaubechies2 cs N0 N1 (daubechies2 cs N0 N1 f) y x|
+      ≤ gam u (4 * cs.length + 2) * (absSum cs ^ 4 * M) := by
+  have hC := absSum_nonneg cs
+  have hgn := gam_nonneg hu cs.length
+  have hgn1 := gam_nonneg hu (cs.length + 1)
+  -- stage 1: rows, analysis
+  let at1 : Nat → Nat → K := fun k q => (waveletRow (cs.map (ex (fl := fl))) N1 (fun q => ex (f k q)) q).v
+  let a1 : Nat → Nat → K := fun k q => waveletRow cs N1 (f k) q
+  have s1 : ∀ k, k < N0 → ∀ q, |at1 k q - a1 k q| ≤ ((1 + gam u cs.length) * 1 - 1) * (absSum cs * M) ∧
+      |a1 k q| ≤ absSum cs * M := fun k hk q =>
+    pass_analysis hu hfl cs N1 (f k) (f k) M 1 hM le_rfl (fun p _ => by simp) (fun p hp => hf k p hk hp) q
+  -- stage 2: columns, analysis
+  let bt : Nat → Nat → K := fun k q => (waveletRow (cs.map (ex (fl := fl))) N0 (fun j => ex (at1 j q)) k).v
+  let b : Nat → Nat → K := fun k q => waveletRow cs N0 (fun j => a1 j q) k
+  have r1 : (1 : K) ≤ (1 + gam u cs.length) * 1 := by linarith
+  have s2 : ∀ k q, |bt k q - b k q| ≤
+      ((1 + gam u cs.length) * ((1 + gam u cs.length) * 1) - 1) * (absSum cs * (absSum cs * M)) ∧
+      |b k q| ≤ absSum cs * (absSum cs * M) := fun k q =>
+    pass_analysis hu hfl cs N0 (fun j => at1 j q) (fun j => a1 j q) (absSum cs * M) _ (by positivity) r1
+      (fun p hp => (s1 p hp q).1) (fun p hp => (s1 p hp q).2) k
+  -- stage 3: columns, synthesis
+  let ct : Nat → Nat → K := fun k q => (iwaveletRow (cs.map (ex (fl := fl))) N0 (fun j => ex (bt j q)) k).v
+  let c : Nat → Nat → K := fun k q => iwaveletRow cs N0 (fun j => b j q) k
+  have r2 : (1 : K) ≤ (1 + gam u cs.length) * ((1 + gam u cs.length) * 1) := by nlinarith
+  have s3 : ∀ k q, |ct k q - c k q| ≤
+      ((1 + gam u (cs.length + 1)) * ((1 + gam u cs.length) * ((1 + gam u cs.length) * 1)) - 1) *
+        (absSum cs * (absSum cs * (absSum cs * M))) ∧
+      |c k q| ≤ absSum cs * (absSum cs * (absSum cs * M)) := fun k q =>
+    pass_synthesis hu hfl cs N0 (fun j => bt j q) (fun j => b j q) (absSum cs * (absSum cs * M)) _ (by positivity) r2
+      (fun p _ => (s2 p q).1) (fun p _ => (s2 p q).2) k
+  -- stage 4: rows, synthesis
+  have r3 : (1 : K) ≤ (1 + gam u (cs.length + 1)) * ((1 + gam u cs.length) * ((1 + gam u cs.length) * 1)) := by
+    have : (1 : K) ≤ (1 + gam u (cs.length + 1)) := by linarith
+    nlinarith
+  have s4 := (pass_synthesis hu hfl cs N1 (fun q => ct y q) (fun q => c y q)
+      (absSum cs * (absSum cs * (absSum cs * M))) _ (by positivity) r3
+      (fun p _ => (s3 y p).1) (fun p _ => (s3 y p).2) x).1
+  rw [gam_four] at s4
+  have e1 : idaubechies2 (cs.map (ex (fl := fl))) N0 N1
+        (daubechies2 (cs.map (ex (fl := fl))) N0 N1 (fun y x => ex (f y x))) y x =
+      iwaveletRow (cs.map (ex (fl := fl))) N1 (fun q => ex (ct y q)) x := rfl
+  have e2 : idaubechies2 cs N0 N1 (daubechies2 cs N0 N1 f) y x = iwaveletRow cs N1 (fun q => c y q) x := rfl
+  rw [e1, e2]
+  have : absSum cs * (absSum cs * (absSum cs * (absSum cs * M))) = absSum cs ^ 4 * M := by ring
+  rw [this] at s4
+  exact s4
 
 end
 
